@@ -432,7 +432,9 @@ struct Scenario {
         exec_step(world, st);
       }
     });
-    bool ok = sched.run(
+    bool ok = false;
+    try {
+    ok = sched.run(
         [this, &sched](int64_t min_deadline) {
           stamp_consumed();
           // nobody can run.  A thread asleep in poll() inside dbus_pending_call_block() although the library has
@@ -451,6 +453,12 @@ struct Scenario {
           return false;
         },
         [this] { stamp_consumed(); });
+    } catch (core::Violation &) {
+      // an oracle evaluated by the scheduler itself (on the main thread) failed: the application threads stay parked
+      threads_stuck = true;
+      K->on_block = nullptr;
+      throw;
+    }
     K->io = simk::IoProfile();
     counters["sched:switches"] += sched.stats.switches;
     counters["sched:preemptions"] += sched.stats.preemptions;
@@ -460,6 +468,7 @@ struct Scenario {
     counters["sched:poll_parks"] += sched.stats.poll_parks;
     counters["sched:world_steps"] += sched.stats.world_steps;
     counters["fault:spurious_cond_wakeup"] += sched.stats.spurious_wakeups;
+    if (sched.stats.spins) counters["probe:thread_spun_on_expired_wait"]++;
     if (sched.stats.mutex_waits) counters["probe:thread_waited_for_lock"]++;
     if (sched.stats.cond_waits) counters["probe:thread_waited_on_condition"]++;
     counters["probe:thread_mode_runs"]++;
